@@ -107,7 +107,7 @@ def nontrivial(sched):
     return False
 
 
-def evaluate(c, res, classes=False):
+def evaluate(c, res, classes=False, aba=False):
     if "panic" in res:
         return [("panic", "server panicked: " + res["panic"])]
     if res.get("stuck"):
@@ -123,7 +123,8 @@ def evaluate(c, res, classes=False):
             if classes:
                 divs.append(("stale-final-diagnostics", "document %s: the client's last diagnostics are those of class %s, the latest content (version %d) has class %d (publications in order: %s)" % (u, got, v, want, order)))
             else:
-                divs.append(("stale-final-publication", "document %s: last publication is version %s, latest content is version %d (publications in order: %s)" % (u, got, v, order)))
+                divs.append(("stale-final-publication" + (":same-text-older-version" if aba else ""), "document %s: last publication is %s version %s, latest content is version %d (publications in order: %s)" % (
+                    u, "sent by the job of" if aba else "", got, v, order)))
     return divs
 
 
@@ -142,13 +143,16 @@ def main(args):
             cases.append((fam, c, False, False))
             cases.append((fam, c, True, k % 2 == 0))
             cases.append((fam, c, False, True))
-    hcases = [{"id": str(i), "schedule": c["schedule"], "workspace": ws, "classes": cl} for i, (_, c, ws, cl) in enumerate(cases)]
+            if fam.startswith("2u_") and any(e["e"] == "deliver" and e["uri"] == "u1" and e["ver"] >= 3 for e in c["schedule"]):
+                # u1 returns to an earlier TEXT (versions alternate between two texts) while u2, which it includes, changes
+                cases.append((fam + "-aba", c, k % 2 == 1, "aba"))
+    hcases = [{"id": str(i), "schedule": c["schedule"], "workspace": ws, "classes": cl is True, "aba": cl == "aba"} for i, (_, c, ws, cl) in enumerate(cases)]
     results = run.harness("diag", hcases, timeout=2400)
     blocked = 0
     for (fam, c, ws, cl), res in zip(cases, results):
         run.count(vf.digest([c["schedule"], ws, cl]), nontrivial(c["schedule"]))
         blocked += 1 if res.get("blocked") else 0
-        for sig, what in evaluate(c, res, cl):
+        for sig, what in evaluate(c, res, cl is True, cl == "aba"):
             run.diverge(sig, what, {"family": fam, "spec_case": c, "workspace": ws, "classes": cl}, res)
     run.extra["schedules_serialised_by_the_implementation"] = blocked
     run.traces_validated = len(cases)
@@ -169,5 +173,6 @@ def main(args):
 
 def confirm(run, d):
     c = d["case"]
-    res = run.harness("diag", [{"id": "0", "schedule": c["spec_case"]["schedule"], "workspace": c["workspace"], "classes": c.get("classes", False)}])[0]
-    return any(sig == d["sig"] for sig, _ in evaluate(c["spec_case"], res, c.get("classes", False)))
+    cl = c.get("classes", False)
+    res = run.harness("diag", [{"id": "0", "schedule": c["spec_case"]["schedule"], "workspace": c["workspace"], "classes": cl is True, "aba": cl == "aba"}])[0]
+    return any(sig == d["sig"] for sig, _ in evaluate(c["spec_case"], res, cl is True, cl == "aba"))
